@@ -3,14 +3,27 @@ from . import COMMON_TB, NOTE
 PROP = {
     "modules": ["Proofs.C05", "Proofs.C05E2E", "Proofs.C05Spell"],
     "streams": [{"name": "scan"}, {"name": "val", "shards": 2}, {"name": "verbatim"}],
-    "rule": "scan: every string of length<=5 (quick) / 6 (thorough) over {{ }} % - \" space newline a, every raw/comment "
-            "block made of 3 opening-tag spellings x every body of <=3 (quick) / 4 (thorough) pieces over {TL TR OL OR - space "
-            "newline a endraw endcomment} x 6 continuations (end tag in three spellings, end tag with arguments, a near miss "
-            "followed by the end tag, nothing) under the default delimiters, << >> [ ] and { } {% %}, harvested test "
-            "templates and their mutants, random bytes / UTF-8 / delimiter-dense sources up to 64 KiB; a case is "
-            "non-trivial when it yields more than one token; distinct by case line",
+    "rule": "scan: under the DEFAULT delimiters every string of length<=5 (quick) / 6 (thorough) over { } % - \" space newline a, "
+            "harvested test templates and their mutants, random bytes / UTF-8 / delimiter-dense sources up to 64 KiB (start "
+            "line 0..3); under the default delimiters, << >> [ ] and { } {% %} the raw/comment family: `p` + 3 opening-tag "
+            "spellings (plain, hyphenated, with an argument) x every body of <=3 (quick) / 4 (thorough) pieces over {TL TR OL OR - "
+            "space newline a endraw endcomment} (quick, custom delimiters: the 6 pieces TL TR OL space endraw -) x 6 "
+            "continuations (end tag in three spellings, end tag with arguments, a near miss "
+            "followed by the end tag, nothing); a case is "
+            "non-trivial when it yields more than one token; distinct by case line. val: the value universe and random value "
+            "trees, encoded, realised as Go values, reified and re-encoded (a codec round trip; nothing is printed). verbatim "
+            "(default delimiters; every case a render line compared with the model): six fixed inputs (the bodies of the repaired "
+            "deviation) and random templates of five shapes in turn - text+raw block+text, text+comment block+text, 2..4 "
+            "raw/comment blocks with delimiter-free text between them, a source without `{{` and `{%`, `[{{ s }}]` with s a "
+            "string / []byte / drop of a string holding tag-like text, arbitrary bytes and HTML/URL metacharacters; a body is up "
+            "to 5 (4) tag-like bits (objects, tags, trim markers, LONE `{{` `}}` `{%` `%}`, syntax errors, `{% raw %}`, "
+            "`{% comment %}`), kept as drawn - delimiters are no longer stripped or balanced - and redrawn only when it contains the "
+            "substring endraw resp. endcomment",
     "trusted_base": COMMON_TB,
-    "assumptions": ["the model's Scan/tokenRe describe parser/scanner.go: checked by the scan stream on every run",
+    "assumptions": ["the model's Scan/tokenRe describe parser/scanner.go: checked by the scan stream on every run - under the default "
+                    "delimiters, and for raw/comment blocks also under << >> [ ] and { } {% %}; under other custom delimiters the token "
+                    "pattern is tied by the rex stream (first match of the real matcher) and Scan through rendering by the delims "
+                    "stream of C19",
                     "the end-tag pattern of formEndTagMatcher (TL-?\\s*end<name>\\s*-?TR) is modelled by endTagRe and is tied by the scan "
                     "stream's raw/comment family (default and custom delimiters), not by translator T4"],
 }
@@ -19,34 +32,58 @@ TEXT = {
     "text": ('Theorems for every delimiter set, source and start line: token sources concatenate to the input (scan_partition), '
               'located tokens carry start line + preceding newlines (scan_lines, scan_line_at), a source in which no delimiter '
               'opens is one text token (scan_no_open_delim). Render level: a text node renders to exactly its bytes '
-              '(text_renders_itself), a raw body is emitted as the concatenation of its token sources whatever it contains '
-              '(raw_verbatim, raw_body_kept), a comment body contributes nothing and is never parsed as an expression '
+              '(text_renders_itself), a raw node writes the concatenation of its slices (raw_verbatim) and inside a raw block the '
+              'parser keeps the source of every token that is not the endraw tag (raw_body_kept), inside a comment block the parser '
+              'drops every token that is not the endcomment tag without handing it to the expression checker '
               '(comment_body_skipped), a string value is written as one write of its bytes without escaping (string_value_exact, '
               'bytes/drop variants), nil prints nothing. End to end, about the whole pipeline `run` (tokenizer, block parser, '
               'compiler, renderer, fault-free writer) for every value layer, configuration, file system, start line and '
               'environment: a source in which neither configured opening delimiter occurs renders to exactly itself, the empty '
               'source included (source_without_open_delim_renders_itself); `run` is the tokenizer followed by `runTokens` '
-              '(run_eq_runTokens in Proofs.E2ERun), and on a token list raw-tag, body, endraw-tag `runTokens` returns exactly the '
-              'concatenated sources of the body tokens (raw_block_renders_body_sources), on comment-tag, body, endcomment-tag it '
-              'returns the empty output and never an error whatever the body tokens are (comment_block_renders_nothing), and '
-              'deleting a whole comment block after any prefix the parser leaves outside comment/raw changes nothing '
-              '(comment_block_erased); the token-level statements assume that no object token of the body has arguments outside '
+              '(run_eq_runTokens in Proofs.E2ERun), and on a token list raw-tag, body, endraw-tag whose body holds no endraw tag '
+              '`runTokens` returns exactly the concatenated sources of the body tokens (raw_block_renders_body_sources), on '
+              'comment-tag, body, endcomment-tag whose body holds no endcomment tag it returns the empty output and never an error '
+              'whatever else the body tokens are (comment_block_renders_nothing), and deleting such a comment block after any '
+              'prefix the parser leaves outside comment/raw changes nothing (comment_block_erased); these token-level statements '
+              'assume that no object token of the body has arguments outside '
               'the expression-lexer model (negative-zero literal; the model answers `unmodelled` there). From source bytes, for every '
-              'delimiter set satisfying GoodDelims (C19, scan_spell) and EVERY body - any bytes in which no end tag of the block '
-              'begins, unclosed `{%` and `{{` included (the tokenizer treats raw and comment lexically since the repair '
+              'delimiter set satisfying GoodDelims (C19, scan_spell) and EVERY body - any bytes such that no end tag of the block '
+              '(TL -? blanks endraw blanks -? TR) begins at an offset inside the body, unclosed `{%` and `{{` included; no '
+              'negative-zero condition, the body being one text token (the tokenizer treats raw and comment lexically since the repair '
               'fixes/raw-comment-lexical; before it such a body swallowed the end tag): the source `TL raw TR body TL endraw TR` '
               'renders to exactly the bytes of the body (raw_body_bytes_emitted) and `TL comment TR body TL endcomment TR` renders '
-              'to nothing, never an error (comment_body_bytes_dropped); the former counterexamples `{% b `, `a {{ x `, '
-              '`%}\\t{%b c{{- x -}}` are evaluated examples; the block ends at the FIRST end tag, whatever follows: a clean text, '
-              'the opening tag, any such body, the end tag and any clean remainder are tokenized as text, tag, ONE text token '
-              'holding the body, end tag, remainder (lex_block_tokens); a comment block with any such body between any clean '
-              'items can be deleted from the token list without changing the result of `run` (comment_block_anywhere); the item-list forms raw_source_renders_body / '
-              'comment_source_renders_nothing remain. Ties: the tokenizer model is compared with parser.Scan on exhaustive '
-              'small strings and random/64KiB inputs; printed values with the real writeObject; the `verbatim` stream renders '
-              'text / raw / comment / string-value templates on the real engine and checks byte equality with the source pieces; '
-              'the partition/line oracle is evaluated on the real tokens.'),
+              'to nothing, never an error (comment_body_bytes_dropped) - for an opening tag without left hyphen and an end tag '
+              'without right hyphen (a right hyphen on the opening tag and a left hyphen on the end tag are allowed and strip nothing '
+              'of the body), both without arguments and satisfying CleanItem: only blanks around the name, at most one blank before the '
+              'closing delimiter and none before a right hyphen; the former counterexamples `{% b `, `a {{ x `, '
+              '`%}\\t{%b c{{- x -}}`, `{% comment %}{% if ` and one under << >> [ ] with hyphens are evaluated examples; the block ends at the FIRST end tag, whatever follows: a text T1 inside which no opening delimiter begins, '
+              'the opening tag (any hyphens, no arguments, CleanItem), any such body, the end tag and any Clean remainder are tokenized as text, tag, ONE text token '
+              'holding the body (none when empty), end tag, remainder (lex_block_tokens); a comment block without hyphens and arguments with any such body between Clean '
+              'items, the items before it leaving the block parser outside comment/raw, can be deleted from the token list without changing the result of `run` (comment_block_anywhere); the item-list forms raw_source_renders_body / '
+              'comment_source_renders_nothing remain (body a Clean item list without an endraw / endcomment tag and without a '
+              'negative-zero literal, same conditions on the two tags). Clean (decidable) = every object and tag is closed by the first '
+              'closing delimiter after its opening, no opening delimiter begins inside a text, except that the text after a raw / '
+              'comment tag is any bytes up to the first end tag. Ties: the tokenizer model is compared with parser.Scan on exhaustive '
+              'small strings and random/64KiB inputs under the default delimiters and on the raw/comment family under three delimiter '
+              'sets, and the partition/line oracle is evaluated on the real tokens; `val` round-trips the value encoding between '
+              'harness and model (nothing is printed); the `verbatim` stream renders '
+              'text / raw / comment / string-value templates on the real engine (default delimiters), compares them with the model '
+              'and checks byte equality with the source pieces - its string-value cases (string, []byte, drop of a string) are where '
+              'printing by the real writeObject is exercised under this property.'),
     "design_ref": 'DESIGN.md 6 C05',
-    "note": NOTE + (""),
+    "note": NOTE + ('The deviation recorded earlier (K-C05-raw-unclosed-delimiter, K-C05-comment-unclosed-delimiter: an opening delimiter '
+              'left unclosed inside a raw/comment body took the end tag\'s closer) is repaired in /repo by e30377e '
+              '(fixes/raw-comment-lexical); its inputs are six fixed cases of the verbatim stream on every run, evaluated examples in '
+              'Proofs/C05Spell.lean, and bodies of the same kind are enumerated by the scan family. Remaining side conditions of the byte-level theorems '
+              '(raw_body_bytes_emitted, comment_body_bytes_dropped), exactly: GoodDelims (four non-empty strings of ASCII bytes that are '
+              'not white space, word characters or `-`, neither opening delimiter a prefix of the other); CleanItem of the two tags, which are taken without '
+              'arguments, the opening tag without left hyphen, the end tag without right hyphen (`{% raw x %}`, `{%- raw %}`, '
+              '`{% endraw -%}` and an end tag with two blanks before TR are not covered by these two theorems; lex_block_tokens covers '
+              'all four hyphen positions at token level); no end tag of the block begins inside the body. The render-level and '
+              'token-level statements are about nodes, single parser steps and token lists; only the token-level and item-list ones need '
+              'the negative-zero assumption. Scan is compared with the model under the default delimiters, and under two further '
+              'delimiter sets for raw/comment blocks only (other custom delimiters: rex, and delims of C19); verbatim uses the default '
+              'delimiters and bodies that do not contain the substring endraw / endcomment.'),
     "technique": ('Lean 4 proof (induction on the match loop of Scan, generic in the regexp, with the lexical skip of raw/comment bodies; render-tree lemmas) + model/implementation '
               'correspondence + verbatim oracle on the implementation'),
 }
